@@ -50,10 +50,16 @@ class SheetGen:
         self.nodes: list[dict] = []   # info about node-producing rows: id, type, used tests, var, ...
         self.noop = noop
         self.counter = 0
+        self._reserved_used = False
 
     # -- helpers
     def _id(self):
         self.counter += 1
+        if self.counter > 1 and not self._reserved_used and self.rng.random() < 0.04:
+            # a row id that coincides with a reserved word of the `from` column / a row type: an id like any other —
+            # except that `from = start` keeps meaning "nothing leads here"
+            self._reserved_used = True
+            return self.rng.choice(["start", "go_to", "None", "no_op"])
         return f"r{self.counter}"
 
     def _edge_for(self, src: dict):
